@@ -149,11 +149,11 @@ Disconnect(c) ==
 Connect(c) ==
     /\ Running /\ ConnectEnabled(st, c) /\ ~st.cli[c].lastNotDisc
     /\ ~st.srv.tickChanged      \* a (re)started server runs a frame before it accepts clients (tick 0 is ambiguous)
-    /\ st' = ConnectF(st, c) /\ g' = [g EXCEPT !.lastSet[c] = <<>>] /\ UNCHANGED b
+    /\ st' = ConnectF(st, c) /\ g' = [g EXCEPT !.lastSet[c] = <<>>, !.onceSent[c] = {}] /\ UNCHANGED b
     /\ Log("Connect", [c |-> c])
 Stop ==
     /\ Running /\ "stop" \in OpKinds /\ b.recon < MaxRecon /\ StopEnabled(st)
-    /\ st' = StopF(st) /\ g' = [g EXCEPT !.snap = <<>>, !.visAt = <<>>] /\ b' = [b EXCEPT !.recon = @ + 1]
+    /\ st' = StopF(st) /\ g' = [g EXCEPT !.snap = <<>>, !.visAt = <<>>, !.onceSent = [c \in Client |-> {}]] /\ b' = [b EXCEPT !.recon = @ + 1]
     /\ Log("Stop", [x |-> 0])
 Start ==
     /\ Running /\ StartEnabled(st)
